@@ -1,1 +1,279 @@
-/-! # C10 — property theorems (not built yet) -/
+import RsMatterVerif.Lemmas.Transport
+/-!
+# C10 — a message reaches only its own exchange, and the receive path never wedges
+
+Theorems over `Model/Transport.lean`:
+* `delivered_only_to_owner`: a received message changes at most one exchange slot of its session —
+  the one whose (exchange id, role) the header addresses — or fills one free slot with a new
+  accept-pending exchange, or changes nothing; `owner_is_keyed` says what "addresses" means;
+* `new_exchange_gate` / `new_exchange_gate_complete`: a new exchange is opened iff no live exchange
+  owns the message, the initiator flag is set, the opcode may open one, the session is not expired,
+  a slot is free (and the counter is fresh);
+* `unknown_exchange_dropped`, `expired_opens_nothing`;
+* `unclaimed_is_discarded`: in every state in which a message waits in the RX slot, either a sweep
+  that empties the slot is enabled now (orphan sweep: session vanished / exchange unknown / exchange
+  dropped), or the exchange is accept-pending and the accept sweep empties the slot once the accept
+  deadline has passed, or the exchange has a live owner; and `owner_drop_enables_discard`: when that
+  owner drops its exchange the slot becomes free or dropped (so the orphan sweep is enabled).
+  With the sweeper tasks scheduled (fairness hypothesis, see `docs/C10.md`) the RX slot is therefore
+  freed within the accept deadline plus one sweep period unless a live owner is about to consume it.
+* `closer_finds_dropped`: the dropped-exchange closer does something whenever a dropped exchange exists.
+-/
+namespace C10
+open Transport
+
+/-- the owner of a message is keyed by (exchange id, role): an initiator-flagged message addresses
+our responder-role exchange and vice versa; the first such slot is taken -/
+theorem owner_is_keyed (s : Sess) (h : RxHdr) (i : Nat) (hf : s.getExchForRx h = some i) :
+    ∃ e, s.slot i = some e ∧ e.id = h.exch ∧ e.role.isResponder = h.initiator :=
+  let ⟨e, h1, h2, h3, _⟩ := getExchForRx_some s h i hf
+  ⟨e, h1, h2, h3⟩
+
+/-- **Delivered only to the owner**: every slot that differs after `post_recv` is the owner's slot
+(result `Ok(false)`) or the newly opened one (result `Ok(true)`, the slot was free before). -/
+theorem delivered_only_to_owner (s : Sess) (h : RxHdr) (now : Nat) (j : Nat)
+    (hchg : (s.postRecv h now).1.slot j ≠ s.slot j) :
+    ((s.postRecv h now).2 = .ok false ∧ s.getExchForRx h = some j) ∨
+    ((s.postRecv h now).2 = .ok true ∧ s.slot j = none ∧ s.getExchForRx h = none) := by
+  have hspec := postRecv_effect s h now
+  unfold RecvSpec at hspec
+  cases hr : (s.postRecv h now).2 with
+  | error er => exact absurd (hspec.2.2 er hr j) hchg
+  | ok b =>
+    cases b with
+    | false =>
+      obtain ⟨i, e, m, hg, _, _, hrest⟩ := hspec.1 hr
+      by_cases hji : j = i
+      · subst hji; exact Or.inl ⟨rfl, hg⟩
+      · exact absurd (hrest j hji) hchg
+    | true =>
+      obtain ⟨hg, _, _, _, i, m, hfree, _, hrest⟩ := hspec.2.1 hr
+      by_cases hji : j = i
+      · subst hji; exact Or.inr ⟨rfl, hfree, hg⟩
+      · exact absurd (hrest j hji) hchg
+
+/-- the owner keeps its identity: delivery changes only the reliability state of the slot -/
+theorem delivery_keeps_identity (s : Sess) (h : RxHdr) (now : Nat) (hr : (s.postRecv h now).2 = .ok false) :
+    ∃ i e e', s.getExchForRx h = some i ∧ s.slot i = some e ∧ (s.postRecv h now).1.slot i = some e' ∧
+      e'.id = e.id ∧ e'.role = e.role := by
+  obtain ⟨i, e, m, hg, hs, hs', _⟩ := (postRecv_effect s h now).1 hr
+  exact ⟨i, e, _, hg, hs, hs', rfl, rfl⟩
+
+/-- **New-exchange gate** (soundness): an exchange is opened only if nobody owns the message, the
+initiator flag is set, the opcode may open an exchange, the session is not expired and a slot was free;
+it is opened as an accept-pending responder exchange with the header's id. -/
+theorem new_exchange_gate (s : Sess) (h : RxHdr) (now : Nat) (hr : (s.postRecv h now).2 = .ok true) :
+    s.getExchForRx h = none ∧ h.initiator = true ∧ h.newOk = true ∧ s.expired = false ∧
+    ∃ i e, s.slot i = none ∧ (s.postRecv h now).1.slot i = some e ∧ e.id = h.exch ∧ e.role = .rp := by
+  obtain ⟨hg, hi, hn, he, i, m, hfree, hnew, _⟩ := (postRecv_effect s h now).2.1 hr
+  exact ⟨hg, hi, hn, he, i, _, hfree, hnew, rfl, rfl⟩
+
+/-- **New-exchange gate** (completeness): when the counter is fresh, nobody owns the message, the flag
+and opcode allow it, the session is not expired and a slot can be had, the exchange *is* opened —
+traffic of other exchanges does not prevent it. -/
+theorem new_exchange_gate_complete (s : Sess) (h : RxHdr) (now : Nat)
+    (hd : (Dedup.postRecv s.rx h.ctr s.mode.enc false).2 = true) (hg : s.getExchForRx h = none)
+    (hi : h.initiator = true) (hn : h.newOk = true) (he : s.expired = false)
+    (hfree : s.exchs.length < Consts.maxExchanges ∨ (firstNone s.exchs 0).isSome) :
+    (s.postRecv h now).2 = .ok true := by
+  unfold Sess.postRecv
+  simp only [hd, Bool.not_true, Bool.false_eq_true, ↓reduceIte]
+  generalize hs0 : ({ s with rx := (Dedup.postRecv s.rx h.ctr s.mode.enc false).1 } : Sess) = s0
+  have hget : s0.getExchForRx h = none := by subst hs0; exact hg
+  have hex : s0.exchs = s.exchs := by subst hs0; rfl
+  have hadd : ∃ p, s0.addExch h.exch .rp = some p := by
+    unfold Sess.addExch
+    simp only [hex]
+    rcases hfree with hlt | hsome
+    · simp [hlt]
+    · by_cases hlt : s.exchs.length < Consts.maxExchanges
+      · simp [hlt]
+      · cases hf : firstNone s.exchs 0 with
+        | none => simp [hf] at hsome
+        | some k => simp [hlt]
+  obtain ⟨⟨s', i⟩, hp⟩ := hadd
+  have hfresh := mrp_postRecv_fresh_ok h.ctr h.ack h.reliable now
+  simp only [hget, hi, hn, he, hp, hfresh, Bool.not_true, Bool.or_self, Bool.false_eq_true, ↓reduceIte]
+
+/-- answers to unknown exchanges (and standalone acks / status reports for unknown exchanges) are dropped -/
+theorem unknown_exchange_dropped (s : Sess) (h : RxHdr) (now : Nat)
+    (hd : (Dedup.postRecv s.rx h.ctr s.mode.enc false).2 = true) (hg : s.getExchForRx h = none)
+    (hno : h.initiator = false ∨ h.newOk = false) :
+    (s.postRecv h now).2 = .error .noExchange ∧ ∀ j, (s.postRecv h now).1.slot j = s.slot j := by
+  have hr : (s.postRecv h now).2 = .error .noExchange := by
+    unfold Sess.postRecv
+    simp only [hd, Bool.not_true, Bool.false_eq_true, ↓reduceIte]
+    generalize hs0 : ({ s with rx := (Dedup.postRecv s.rx h.ctr s.mode.enc false).1 } : Sess) = s0
+    have hget : s0.getExchForRx h = none := by subst hs0; exact hg
+    simp only [hget]
+    rcases hno with h1 | h1 <;> simp [h1]
+  exact ⟨hr, (postRecv_effect s h now).2.2 _ hr⟩
+
+/-- an expired session opens no new exchange -/
+theorem expired_opens_nothing (s : Sess) (h : RxHdr) (now : Nat) (he : s.expired = true) :
+    (s.postRecv h now).2 ≠ .ok true := by
+  intro hr
+  have := (new_exchange_gate s h now hr).2.2.2.1
+  rw [he] at this
+  simp at this
+
+/-- non-vacuity: an initiator request opens an exchange; the same id with the other flag is unknown;
+a second request with the same id is delivered to the first's exchange; an expired session refuses. -/
+def exHdr (c e : Nat) (i : Bool) : RxHdr := { ctr := c, exch := e, initiator := i, ack := none, reliable := true, newOk := true }
+def exS1 := ({ uid := 0, ctr := 0, mode := .pase } : Sess).postRecv (exHdr 1 7 true) 0
+def exS2 := exS1.1.postRecv (exHdr 2 7 false) 0
+def exS3 := exS2.1.postRecv (exHdr 3 7 true) 0
+def exS4 := ({ exS3.1 with expired := true } : Sess).postRecv (exHdr 4 8 true) 0
+def resCode : Except Err Bool → Nat
+  | .ok true => 1
+  | .ok false => 2
+  | .error .noExchange => 3
+  | .error .noSession => 4
+  | .error _ => 5
+example : (resCode exS1.2, resCode exS2.2, resCode exS3.2, resCode exS4.2) = (1, 3, 2, 4) := by decide
+
+/-! ## The receive slot does not wedge -/
+
+/-- **In every state with a message waiting in the RX slot a discarding step is enabled or the
+message has a live claimant.** `port`/`sid` are the packet's peer port and session id, `h` its header. -/
+theorem unclaimed_is_discarded (t : Table) (port sid : Nat) (h : RxHdr) (now : Nat) :
+    -- the orphan sweep empties the slot now
+    (t.sweepOrphan port sid h now).2 = true ∨
+    -- or the message belongs to a live exchange …
+    ∃ s i e, (t.getForRx port sid now).2 = some s ∧ s.getExchForRx h = some i ∧ s.slot i = some e ∧
+      e.role.isDropped = false ∧
+      -- … which is accept-pending, and then the accept sweep empties the slot as soon as the deadline has passed …
+      ((e.role = .rp ∧ (e.mrp.hasRxTimedOut Consts.acceptTimeoutMs now = true →
+          (t.sweepAccept port sid h now).2 = true)) ∨
+      -- … or owned by a live `Exchange` object (initiator-owned or accepted responder)
+       e.role = .io ∨ e.role = .ro) := by
+  unfold Table.sweepOrphan Table.sweepAccept
+  cases hgr : t.getForRx port sid now with
+  | mk t' so =>
+    cases so with
+    | none => left; simp
+    | some s =>
+      simp only
+      cases hg : s.getExchForRx h with
+      | none => left; simp
+      | some i =>
+        simp only
+        cases hs : s.slot i with
+        | none => left; simp
+        | some e =>
+          simp only
+          cases hd : e.role.isDropped with
+          | true => left; rfl
+          | false =>
+            right
+            refine ⟨s, i, e, rfl, hg, hs, hd, ?_⟩
+            cases hrole : e.role with
+            | io => exact Or.inr (Or.inl rfl)
+            | ro => exact Or.inr (Or.inr rfl)
+            | rp =>
+              left
+              refine ⟨rfl, fun hto => ?_⟩
+              simp [hto]
+            | id => simp [hrole, RoleSt.isDropped] at hd
+            | rd => simp [hrole, RoleSt.isDropped] at hd
+
+/-- the accept deadline does pass: an accepted message stamps the exchange with its arrival time, so
+`ACCEPT_TIMEOUT_MS` later `has_rx_timed_out` holds (as long as nothing is sent on the exchange) -/
+theorem accept_deadline_passes (m : Mrp) (c : Nat) (a : Option Nat) (rel : Bool) (now later : Nat)
+    (hok : (m.postRecv c a rel now).2 = none) (hl : now + Consts.acceptTimeoutMs ≤ later) :
+    (m.postRecv c a rel now).1.hasRxTimedOut Consts.acceptTimeoutMs later = true := by
+  have hrecv : (m.postRecv c a rel now).1.recvAt = some now := by
+    unfold Mrp.postRecv at hok ⊢
+    cases a with
+    | none => cases rel <;> simp
+    | some av =>
+      cases hm : m.retrans with
+      | none => cases rel <;> simp
+      | some r =>
+        simp only [hm] at hok ⊢
+        by_cases hne : r.ctr = av
+        · cases rel <;> simp [hne]
+        · simp [hne] at hok
+  simp [Mrp.hasRxTimedOut, hrecv, hl]
+
+/-- when the owner drops its exchange the slot is freed or marked dropped — never left owned — so
+the orphan sweep (or the "unknown exchange" rule) applies to a message still waiting for it -/
+theorem owner_drop_enables_discard (s : Sess) (i : Nat) (e : Exch) (hs : s.slot i = some e) :
+    (s.removeExch i).1.slot i = none ∨
+    ∃ e', (s.removeExch i).1.slot i = some e' ∧ e'.role.isDropped = true ∧ e'.id = e.id := by
+  have hlt := slot_lt s i e hs
+  unfold Sess.removeExch
+  simp only [hs]
+  split
+  · right
+    refine ⟨{ e with role := e.role.setDropped }, by rw [slot_set]; simp [hlt], ?_, rfl⟩
+    cases e.role <;> rfl
+  · left
+    rw [slot_set]; simp [hlt]
+
+/-- `findDropped` misses nothing -/
+theorem findDropped_none (want : Bool) : ∀ (l : List Sess), findDropped want l = none →
+    ∀ s ∈ l, ∀ i e, s.slot i = some e → ¬ (e.role.isDropped = true ∧ e.mrp.isRetransPending = want) := by
+  intro l
+  induction l with
+  | nil => intro _ s hs; simp at hs
+  | cons x xs ih =>
+    intro hf s hs i e hsl ⟨hd, hr⟩
+    have hgo : ∀ (es : List (Option Exch)) (k : Nat), findDropped.go want es k = none →
+        ∀ (j : Nat) (e : Exch), es[j]? = some (some e) → ¬ (e.role.isDropped = true ∧ e.mrp.isRetransPending = want) := by
+      intro es
+      induction es with
+      | nil => intro k _ j e hj; simp at hj
+      | cons y ys ihy =>
+        intro k hk j e hj ⟨h1, h2⟩
+        cases y with
+        | none =>
+          simp only [findDropped.go] at hk
+          cases j with
+          | zero => simp at hj
+          | succ j => rw [List.getElem?_cons_succ] at hj; exact ihy (k + 1) hk j e hj ⟨h1, h2⟩
+        | some e0 =>
+          simp only [findDropped.go] at hk
+          split at hk
+          · simp at hk
+          · rename_i hnot
+            cases j with
+            | zero =>
+              simp only [List.getElem?_cons_zero, Option.some.injEq] at hj
+              subst hj
+              simp [h1, h2] at hnot
+            | succ j => rw [List.getElem?_cons_succ] at hj; exact ihy (k + 1) hk j e hj ⟨h1, h2⟩
+    simp only [findDropped] at hf
+    split at hf
+    · simp at hf
+    · rename_i hx
+      rcases List.mem_cons.1 hs with h1 | h1
+      · subst h1
+        exact hgo s.exchs 0 hx i e ((slot_eq_some s i e).1 hsl) ⟨hd, hr⟩
+      · exact ih hf s h1 i e hsl ⟨hd, hr⟩
+
+/-- the closer has nothing to do: neither search finds a dropped exchange -/
+def closerIdle (t : Table) : Prop := findDropped true t.sessions = none ∧ findDropped false t.sessions = none
+
+/-- **The closer misses no dropped exchange**: when its two searches come back empty (and only then
+does it answer "nothing to do", `closerIdle_nothing`), no exchange of any session is in a dropped
+state. With the closer scheduled, every dropped exchange is therefore eventually closed — with the
+acknowledgement it owes, or by closing its session (`Table.sweepDropped`). -/
+theorem closer_finds_dropped (t : Table) (hn : closerIdle t) :
+    ∀ s ∈ t.sessions, ∀ i e, s.slot i = some e → e.role.isDropped = false := by
+  intro s hs i e hsl
+  cases hd : e.role.isDropped with
+  | false => rfl
+  | true =>
+    exfalso
+    cases hr : e.mrp.isRetransPending with
+    | true => exact findDropped_none true t.sessions hn.1 s hs i e hsl ⟨hd, hr⟩
+    | false => exact findDropped_none false t.sessions hn.2 s hs i e hsl ⟨hd, hr⟩
+
+theorem closerIdle_nothing (t : Table) (now : Nat) (hn : closerIdle t) : (t.sweepDropped now).2 = .nothing := by
+  unfold Table.sweepDropped
+  simp [hn.1, hn.2]
+
+example : closerIdle {} := ⟨rfl, rfl⟩
+
+end C10
